@@ -303,6 +303,24 @@ def check_stack(ctx, P):
     o.check(ok, "exchange(NULL)", "flush is `%s`" % (ops[0].node.text if ops else "?"), site=f.loc, construct="stack flush")
 
 
+def check_sentinel(ctx, P):
+    """the RAISED marker of the multi signal is one constant, the same in every translation unit, and not a possible node address"""
+    global RAISED
+    from rules import macro_constant
+    o = ctx.ob("msignal.sentinel", "", "FIBER_MULTI_SIGNAL_RAISED is the same compile-time constant in every translation unit, and neither NULL nor a possible "
+               "node address (it is stored in the shared word and compared by fibers compiled elsewhere)",
+               "a marker that differs between translation units is not recognised by a waiter compiled in another one: it links itself in front of the marker "
+               "and sleeps, the pending raise is dropped")
+    v, bad, site = macro_constant(P, "FIBER_MULTI_SIGNAL_RAISED")
+    if bad is None and (v == 0 or (v is not None and 4096 <= v < 2 ** 47 and v % 8 == 0)):
+        bad = "FIBER_MULTI_SIGNAL_RAISED = %#x can be NULL / a node address" % v
+    if bad:
+        o.fail(bad, site=site, construct="per-translation-unit sentinel")
+        raise AnalysisBroken("multi-signal marker is not a constant: the row tables cannot be evaluated")
+    o.ok("FIBER_MULTI_SIGNAL_RAISED = %d" % v)
+    RAISED = v
+
+
 def check_msignal(ctx, P):
     wt = P.fn("fiber_multi_signal_wait")
     o = ctx.ob("msignal.wait", wt, "wait: on RAISED the CAS2 that installs NULL consumes the signal and the fiber does not sleep; otherwise the fiber links its own node "
@@ -348,7 +366,7 @@ def check_msignal(ctx, P):
         isData = shared_load(f, ["data"])
         isScr = shared_load(f, ["scratch"])
         for ptr in ((RAISED, 0, 0x4000) if name.endswith("raise") else (0x4000,)):
-            base = atom_from([(isC, 7), (isP, ptr), (isNext, 0x8880), (isScr, -1),
+            base = atom_from([(isC, 7), (isP, ptr), (isNext, 0x8880), (isScr, c01.rtw(P)),
                               (lambda n: n.k == "CallExpr" and n.callee == CAS2, 1)])
             m = Machine(f, P, None)
 
@@ -414,6 +432,7 @@ def check_writers(ctx, P):
 
 def run(ctx):
     P = ctx.prog()
+    check_sentinel(ctx, P)
     check_asm(ctx, P)
     check_writers(ctx, P)
     check_sites(ctx, P)
